@@ -461,7 +461,20 @@ ProtAPI ==
     /\ \E op \in ProtOps : \E st \in NextProt(cfg.prot, op) : cfg' = [cfg EXCEPT !.prot = st]
     /\ live' = [live EXCEPT !.np = @ + 1]
     /\ UNCHANGED <<req, p, tab, bk>>
-NextHist == Boot \/ Ask \/ Repeat \/ Reconfigure \/ ReconfigureFails \/ ProtAPI \/ Finish
+\* A pause for a duration runs out by itself, in two steps: PauseExpires -- the
+\* deadline has passed, the first request that notices starts the write-back
+\* of "protection on" (cfg.prot = "expired": expired, write-back in flight) --
+\* and WriteBack, which completes it.  Protection is in effect from the first
+\* of the two on (EffProt("expired")): every request in the intermediate state
+\* is filtered, names and answers alike.
+PauseExpires == /\ p.stage = "ready" /\ cfg.prot = "paused"
+                /\ cfg' = [cfg EXCEPT !.prot = "expired"]
+                /\ UNCHANGED <<req, p, tab, bk, live>>
+WriteBack    == /\ p.stage = "ready" /\ cfg.prot = "expired"
+                /\ cfg' = [cfg EXCEPT !.prot = "on"]
+                /\ UNCHANGED <<req, p, tab, bk, live>>
+NextHist == Boot \/ Ask \/ Repeat \/ Reconfigure \/ ReconfigureFails \/ ProtAPI \/ PauseExpires \/ WriteBack
+              \/ Finish
               \/ Before \/ Initial \/ FilterBefore \/ Upstream \/ FilterAfter \/ Log
 SpecHist == Init /\ [][NextHist]_vars
 \* DnsPipeline.mc.cfg checks both kinds of behaviours in one run: the
